@@ -1,6 +1,6 @@
 (* drv_loc.ml — locale domain (C14).  Lines (see harness/drv_loc.c):
      P <hextext> <flags> <depth> <chunks> <fault>     parse under the three locale modes
-     S <jvtext> <flags>                               serialize under the three locale modes
+     S <jvtext> <flags> [<cfg>]                       serialize under the three locale modes, cfg = custom double formats etc.
      G <hexstring>                                    json_object_get_double on a string
      F <16hex>                                        libc snprintf("%.17g") itself (oracle hypothesis)
    Observation: "<mode> <data…> H? D? F? L? sep=.. | … | same <0/1>".
@@ -18,16 +18,33 @@ let ok = shape_recognised && exits_all_ok exits
 
 let modes = [ ("C", "2e"); ("G", "2c"); ("T", "2c") ]
 
+(* S <tree> <flags> [<cfg>]: a custom double format is inside the hypothesis of C14_ser_fmt_locale_indep
+   (one conversion; literal text without ',' and without '.' before the number) or not ("exotic":
+   then the model makes no prediction about the modes agreeing) *)
+let format_exotic (f : string) =
+  let n = String.length f in
+  let rec before i =
+    if i >= n then false
+    else if f.[i] = '%' then (if i + 1 < n && f.[i+1] = '%' then before (i + 2) else false)
+    else if f.[i] = '.' then true else before (i + 1) in
+  String.contains f ',' || before 0
+
+let cfg_exotic cfg =
+  List.exists (fun it ->
+    String.length it > 1 && (it.[0] = 'G' || it.[0] = 'T' || it.[0] = 'O') && String.sub it 1 (String.length it - 1) <> "0"
+    && format_exotic (string_of_bytes (bytes_of_hex (String.sub it 1 (String.length it - 1)))))
+    (String.split_on_char ',' cfg)
+
 let run line =
   match split_on ' ' line with
-  | op :: _ when op = "P" || op = "S" || op = "G" || op = "F" ->
+  | op :: args when op = "P" || op = "S" || op = "G" || op = "F" ->
     let ndata = (match op with "P" -> 4 | _ -> 1) in
     let data = String.concat " " (List.init ndata (fun _ -> "?")) in
     let inv = if op = "P" then (if ok then "H1 D1 F1 L0" else "? ? ? ?") else "H1 D1 F1 L0" in
     let per = List.map (fun (m, sep) -> Printf.sprintf "%s %s %s sep=%s" m data inv sep) modes in
     let same = (match op with
                 | "P" -> if ok then "1" else "?"
-                | "S" -> "1"
+                | "S" -> (match args with [_; _; cfg] when cfg_exotic cfg -> "?" | _ -> "1")
                 | _ -> "?") in
     String.concat " | " per ^ " | same " ^ same
   | _ -> failwith "loc line"
